@@ -13,6 +13,18 @@ REAL_INV = ["RealOpens", "RealWindow", "RealNoGhost", "RealCount"]
 ACK_INV = ["AtAckJournalClear", "AtAckLayout", "MetaMatches", "Partition", "NoUnknownRegion"]
 
 
+def full_device_jobs(rng, n, extra=(), maximages="1500"):
+    """Workloads on devices with 5..10 data blocks: allocation failures, retirement forced by lack of
+    space, extents that end at the last block of the device, immediate reuse of freed blocks."""
+    jobs = []
+    for i in range(n):
+        jobs.append(("full%d" % i, ["--seed", str(rng.randrange(1 << 30)), "--steps", "60", "--fmt", str([3, 3, 2, 1][i % 4]),
+                                    "--blocks", str(rng.choice([21, 22, 23, 24, 26])), "--cpus", str(rng.choice([2, 4])),
+                                    "--keys", str(rng.choice([2, 3, 4])), "--ttl", "1", "--end", "drop", "--flushpct", "25",
+                                    "--maximages", maximages] + list(extra)))
+    return jobs
+
+
 def run_workloads(fxv, rd, jobs, par=8):
     """jobs: list of (tag, [args]). Each workload records a trace incl. real recoveries."""
     shm = v.shm_dir("crash")
